@@ -3,7 +3,7 @@ import hashlib, hmac, os
 from core import Case
 
 PROP = 'C03'
-COQ_FILES = ['Extract/C03.v', 'Proofs/Bip32Glue.v', 'Proofs/Bip32Session.v', 'Properties/C03.v']
+COQ_FILES = ['Proofs/Bip32Construct.v', 'Extract/C03.v', 'Proofs/Bip32Glue.v', 'Proofs/Bip32Session.v', 'Properties/C03.v']
 ESCALATE_CAP = 1500
 DRIVER = 'c03'
 IMPL = 'harness/impl/c03_impl.py'
@@ -40,6 +40,16 @@ ASSUMPTIONS = [
     'requests that pass child_index are generated when VERIF_C03_FIX8=1 (the code before the repair stores n in the object: finding 8). '
     'Not in the sessions: key_type single, uncompressed keys; network names other than bitcoin, '
     'testnet, litecoin (frozen SLIP-44 coin types and BIP32 version bytes in harness/props/c03.py)',
+    'construction forms: Proofs/Bip32Construct.v lib_construct models what HDKey.__init__ keeps of what it is handed (key= / chain= '
+    'keywords; 64 bytes key||chain; hex / bytes / int / WIF / BIP38 private key, hex / bytes / (x, y) public key with chain=; a Key or '
+    'HDKey OBJECT with chain=, whose own chain code and metadata are not consulted; 32 zero bytes when a plain key comes without '
+    'chain=); theorems construction_is_callers_key / construction_derives_callers_children / '
+    'construction_ignores_imported_objects_chain; tied by correspondence only (every `ctor:` start token is evaluated by the '
+    'extracted lib_construct and by the real constructor, with and without explicit depth / parent_fingerprint / child_index / '
+    'is_private / compressed / key_type / network arguments, positional and import_key= keyword), not by a source-AST tie. Not '
+    'decided here: HDKey(<HDKey object>) WITHOUT chain= (the library drops the object\'s chain code and uses 32 zero bytes), a '
+    '128-character hex string of key||chain (read as a plain key), multisig=True next to a key format that implies multisig=False '
+    '(get_key_format overrides the argument), uncompressed public keys',
     'lib_is_spec_sound needs public start keys with coordinates in [0,p) and a non-empty chain code; whether the library rejects a '
     'public key that is off the curve is left to fastecdsa (modelled: congruence test after reduction mod p)',
 ]
@@ -50,6 +60,11 @@ RULE = ('corpus (BIP32 test vectors 1-4, keys with leading-zero secrets), seeds 
         'witness type and multisig setting: derive - public() - same path in the same and in other spellings - original again, '
         'child_private/child_public with the same indices before and after public(), child then parent then child.public(), '
         'public_master / public_master_multisig with every argument, network_change and every export between derivations, random sessions; '
+        'every construction form of the start key (key=/chain= keywords as bytes / hex / int, import_key with key=, 64 bytes key||chain, '
+        'hex, hex+01, bytes, bytes+01, int, WIF, BIP38 + password, Key object made from hex / bytes / int / WIF / keywords and for another '
+        'network, HDKey object with another / the same / a zero chain code, public hex / bytes / (x, y)) x optional arguments x '
+        'BIP32 vector 1 master, a deep child, a leading-zero secret, a zero chain code (chain= given and omitted), public and private, '
+        'as start of derive / child_private / child_public requests and of sessions on every network; '
         'non-trivial = the implementation returned a key; distinct by request')
 
 VPRV, VPUB = '0488ade4', '0488b21e'
@@ -274,6 +289,8 @@ def key_of_tok(t):
         return master(bytes.fromhex(p[3]))
     if p[0] in ('xstr', 'xwif'):
         p = p[2:]
+    if p[0] == 'ctor':
+        p = p[4:]                      # whatever the construction form: the key the caller specified
     kind, k, c, d, f, i = p
     c = b'' if c == '-' else bytes.fromhex(c)
     f = b'' if f == '-' else bytes.fromhex(f)
@@ -339,6 +356,66 @@ def start_forms(x):
     out = [fields_of(x.neuter(), False), 'xstr:%s:%s' % (ser_x(x, False), fields_of(x.neuter(), False))]
     if x.k is not None:
         out += [fields_of(x, True), 'xstr:%s:%s' % (ser_x(x, True), fields_of(x, True))]
+    return out
+
+
+# ---- construction forms: every way HDKey(...) accepts the key material (k, c) and the metadata
+# WIF version bytes (chainparams base58Prefixes[SECRET_KEY]), frozen
+WIF_VERSION = {'bitcoin': 0x80, 'testnet': 0xef, 'litecoin': 0xb0}
+# BIP38 test vectors of the BIP text (no EC multiply, compressed): (encrypted key, passphrase, secret)
+BIP38_VECTORS = [
+    ('6PYNKZ1EAgYgmQfmNVamxyXVWHzK5s6DGhwP4J5o44cvXdoY7sRzhtpUeo', 'TestingOneTwoThree',
+     'cbf4b9f70470856bb4f40f80b87edb90865997ffee6df315ab166d713af433a5'),
+    ('6PYLtMnXvfG3oJde97zRyLYFZCYizPU5T3LwgdYJz1fRhh16bU7u6PPmY7', 'Satoshi',
+     '09c2686880095b1a4c249ee3ac4eea8a014f11e6f986d0b5025ac1f39afbd9ae'),
+]
+CTOR_PRV = ['kwbytes', 'kwhex', 'kwint', 'kwboth', 'cat64', 'hex', 'hexc', 'bytes', 'bytesc', 'int', 'wif', 'keyhex', 'keybytes',
+            'keyint', 'keywif', 'keypos', 'hdobj', 'hdobjsame', 'hdseed']
+CTOR_PUB = ['kwbytes', 'kwhex', 'pubhex', 'pubbytes', 'point']
+CTOR_OBJ = ('keyhex', 'keybytes', 'keyint', 'keypos', 'hdobj', 'hdobjsame', 'hdseed')
+ZERO_CHAIN = bytes(32)
+
+
+def wif_of(k, net='bitcoin'):
+    return b58check(bytes([WIF_VERSION[net]]) + k.to_bytes(32, 'big') + b'\1')
+
+
+def ctor_tok(x, form, opts='', net='bitcoin'):
+    """token of the construction form [form] with options [opts] for the extended key x (see harness/impl/c03_impl.py)"""
+    private = x.k is not None
+    if (x.depth, x.pfp, x.idx) != (0, b'\0\0\0\0', 0) and 'm' not in opts:
+        opts += 'm'
+    if x.c != ZERO_CHAIN or form in ('kwbytes', 'kwhex', 'kwint', 'kwboth', 'cat64'):
+        opts = opts.replace('z', '')
+    if form in ('kwbytes', 'kwhex') and not private and 'p' not in opts:
+        opts += 'p'                                    # key= of a public key needs is_private=False
+    aux = '-'
+    if form in ('wif', 'keywif'):
+        aux = wif_of(x.k, net)
+    elif form == 'point':
+        aux = '%x,%x' % x.K
+    return 'ctor:%s:%s:%s:%s' % (form, opts or '-', aux, fields_of(x, private))
+
+
+def ctor_opts(rng, form, session=False):
+    """a random combination of the optional arguments"""
+    o = ''.join(ch for ch in 'mpctKz' if rng.random() < 0.4)
+    if not session and rng.random() < 0.3:
+        o += 'n'
+    if form in CTOR_OBJ and rng.random() < 0.4:
+        o += 'o'
+    if form.startswith('kw'):
+        o = o.replace('K', '')
+    return o
+
+
+def ctor_forms(rng, x, net='bitcoin', session=False, nopts=1):
+    """x in every construction form (plain call, then [nopts] random option combinations each)"""
+    out = []
+    for form in (CTOR_PRV if x.k is not None else CTOR_PUB):
+        out.append(ctor_tok(x, form, '', net))
+        for _ in range(nopts):
+            out.append(ctor_tok(x, form, ctor_opts(rng, form, session), net))
     return out
 
 
@@ -505,6 +582,26 @@ def gen_cases(rng, tier):
         st = 'pub:%s:%s:0:00000000:0' % ((b'\2' + xb).hex(), base.c.hex())
         add_derive(cs, 'off_curve', st, '0', v=vers())
         add_derive(cs, 'off_curve', st, 'm', v=vers())
+    # --- construction forms: the same (k, c, metadata) handed to the constructor in every way it accepts; the children
+    #     are the BIP32 children of the key the caller specified
+    v1 = master(bytes.fromhex(VECTORS[0][0]))
+    lz = XK(255, mul_g(255), bytes(range(1, 33)), 0, b'\0\0\0\0', 0)
+    zc = XK(base.k, base.K, ZERO_CHAIN, 0, b'\0\0\0\0', 0)
+    cpaths = ['m', "m/0'", 'm/0/1', 'M/0', "m/44h/0h/0h/0/5", 'M']
+    for n, x in enumerate((v1, child, lz, zc, v1.neuter(), child.neuter(), zc.neuter())):
+        for t, st in enumerate(ctor_forms(rng, x, nopts=3 if big else 1)):
+            ps = cpaths if big else [cpaths[(n + t) % 3], cpaths[3 + (n + t) % 3]]
+            for p in ps:
+                add_derive(cs, 'ctor_form', st, p, v=vers(t % 4 == 0))
+            if big or (t + n) % 3 == 0:
+                i = rng.choice([0, 1, H31 - 1])
+                cs.append(Case('ctor_form', 'cpub %s %d %s' % (st, i, vers()), meta=('cpub', st, i)))
+                cs.append(Case('ctor_form', 'cpriv %s %d %d %s' % (st, i, t % 2, vers()), meta=('cpriv', st, i, t % 2)))
+    for enc, pw, sec in BIP38_VECTORS[:2 if big else 1]:
+        kk = int(sec, 16)
+        x = XK(kk, mul_g(kk), rand_bytes(rng, 32), 0, b'\0\0\0\0', 0)
+        st = 'ctor:bip38:%s:%s,%s:%s' % (rng.choice(['-', 'K', 'm']), enc, pw.encode().hex(), fields_of(x, True))
+        add_derive(cs, 'ctor_form', st, "m/0'/1")
     # --- wif(child_index=n): the export with another child number; the key keeps its own
     if FIX8:
         for x in (base, child):
@@ -880,6 +977,36 @@ def gen_sessions(rng, big):
                 b.raw_path(t, 'm', w=True)
                 b.path(t, [1], w=True)
         emit('sess_network_exports', b)
+    # --- every construction form as start object of a session: derive, public(), the same paths, children
+    for rep in range(3 if big else 1):
+        net = ['bitcoin', 'testnet', 'litecoin'][rep % 3]
+        xm = master(rand_bytes(rng, 32))
+        xc = ckd(ckd(xm, 44 + H31), 1)
+        for n, x0 in enumerate((xm, xc, xm.neuter(), xc.neuter())):
+            if not big and n == 1:
+                x0 = XK(xm.k, xm.K, ZERO_CHAIN, 0, b'\0\0\0\0', 0)
+            for t, st in enumerate(ctor_forms(rng, x0, net, session=True, nopts=1)):
+                if not big and t % 2 == (0 if n in (0, 2) else 1) and rep == 0:
+                    continue
+                net_t = net if big else ['bitcoin', 'testnet', 'litecoin'][(t // 2) % 3]
+                if net_t != net:
+                    st = ctor_tok(x0, st.split(':')[1], st.split(':')[2].replace('-', ''), net_t)
+                # multisig=True only where the constructor takes the argument as given (forms that go through
+                # get_key_format take the multisig flag from the key format)
+                direct = st.split(':')[1] in CTOR_OBJ + ('kwbytes', 'kwhex', 'kwint', 'kwboth', 'cat64')
+                b = SessionBuilder(rng, st, net_t, 'lps'[t % 3] if t % 4 == 0 else 'l', 1 if (t % 5 == 3 and direct) else 0)
+                q1, q2 = [rng.choice([H31, 0, 44 + H31]), t % 3], [rng.randrange(4), 1]
+                if x0.k is None:
+                    q1 = [q % H31 for q in q1]
+                b.raw_path(0, 'm', w=True)
+                b.path(0, q1, w=True)
+                b.path(0, q2)
+                pub = b.add(0, 'pub', w=True)
+                b.path(pub, q2, w=True)
+                b.add(0, 'cpub', q2[0])
+                b.add(0, 'cpriv', q2[0], t % 2, w=True)
+                b.path(0, q1, rng.choice(['m', '', 'M']))
+                emit('sess_ctor_form', b)
     # --- random sessions
     for rep in range(300 if big else 36):
         b, x = fresh(private=False)
